@@ -156,7 +156,8 @@ class Scenario:
 
 
 class ConfEval:
-    def __init__(self, prog: Program, module: str, scenario: Scenario, choices: dict, max_depth: int = 4):
+    def __init__(self, prog: Program, module: str, scenario: Scenario, choices: dict, max_depth: int = 4, call_hook=None):
+        self.call_hook = call_hook
         self.prog = prog
         self.module = module
         self.sc = scenario
@@ -271,6 +272,10 @@ class ConfEval:
             return self.comprehension(e, env)
         if isinstance(e, ast.Starred):
             return self.ev(e.value, env)
+        if isinstance(e, ast.NamedExpr) and isinstance(e.target, ast.Name):
+            v = self.ev(e.value, env)
+            env[e.target.id] = v
+            return v
         raise Unsupported(unparse(e)[:80])
 
     @staticmethod
@@ -364,6 +369,10 @@ class ConfEval:
     # ------------------------------------------------------------------
     def call(self, e: ast.Call, env: dict):
         fn = unparse(e.func)
+        if self.call_hook is not None:
+            r = self.call_hook(e, env, self)
+            if r is not NotImplemented:
+                return r
         if fn.split(".")[0] in LOGGERS:
             for a in e.args:
                 self.ev(a, env)
@@ -617,6 +626,8 @@ class ConfEval:
             rhs = self.ev(st.value, env)
             if isinstance(cur, (int, float, str)) and isinstance(rhs, (int, float, str)) and isinstance(st.op, ast.Add):
                 self.assign(st.target, cur + rhs, env)
+            elif isinstance(cur, dict) and isinstance(rhs, dict) and isinstance(st.op, ast.BitOr):
+                cur.update(rhs)  # in place, like dict.__ior__
             else:
                 self.assign(st.target, Opaque(syms_of(cur) | syms_of(rhs), "aug"), env)
             return
@@ -674,7 +685,7 @@ def _as_load(t: ast.expr) -> ast.expr:
     return t2
 
 
-def run_function(prog: Program, module: str, func: str, make_args, scenario: Scenario, max_outcomes: int = 4096):
+def run_function(prog: Program, module: str, func: str, make_args, scenario: Scenario, max_outcomes: int = 4096, call_hook=None):
     """Evaluate `module.func` for every resolution of the undecided tests.
     make_args() -> dict of argument values (fresh objects each time).
     -> [{"choices", "status", "result", "args", "detail"}]"""
@@ -683,7 +694,7 @@ def run_function(prog: Program, module: str, func: str, make_args, scenario: Sce
     outcomes = []
     while pending and len(outcomes) < max_outcomes:
         ch = pending.pop()
-        ev = ConfEval(prog, module, scenario, ch)
+        ev = ConfEval(prog, module, scenario, ch, call_hook=call_hook)
         ev.input_writes = []
         args = make_args()
         status, result, detail = "ok", None, ""
